@@ -68,6 +68,7 @@ structure Agent where
   subs   : List Ev := []
   flag   : Bool := false      -- operatorConditionValue of its ManagedThread
   parked : Nat := 0           -- number of handlers parked in SuspendUnsafe
+  woken  : Nat := 0           -- handlers that have left SuspendUnsafe (Ready→Running done) and have not read the event yet
   errSet : Bool := false
   errType : String := ""
   serial : Nat := 0           -- identity of this agent object (its uuid)
@@ -131,6 +132,16 @@ inductive InitChan where
   | failure (resetReceived : Bool) (errType : String)   -- a failure waits to be consumed
   | closed
 deriving DecidableEq, Repr
+
+/-- `Server.Clear()` takes a failure that nobody has awaited with it (repaired in /repo 90b799c, finding
+    F15: it used to stay pending and was handed to the next invocation of the next generation) -/
+def InitChan.drain : InitChan → InitChan
+  | .failure _ _ => .closed
+  | c => c
+
+def InitChan.isFailure : InitChan → Bool
+  | .failure _ _ => true
+  | _ => false
 
 inductive G3PC where   -- inner goroutine of Invoke: awaitInitialized → (Shutdown) → FastInvoke
   | awaitInit | shutdownWait | shutdownRun | fast | done
